@@ -79,6 +79,9 @@ namespace occa {
 
   private:
     void assertInitialized() const;
+    static void assertValidRange(const dim_t count,
+                                 const dim_t offset,
+                                 const udim_t entries);
     void setModeMemory(modeMemory_t *modeMemory_);
     void removeMemoryRef();
 
